@@ -50,6 +50,7 @@ type VirtualMachine struct {
 	concAllowed  bool
 	callDepth    int
 	globalsGiven bool
+	lastRun      *compiler.Code
 	runMutex     sync.Mutex
 	cloneMutex   sync.Mutex
 	tmp          [MaxArgs]object.Object
@@ -187,8 +188,29 @@ func (vm *VirtualMachine) runCodeInternal(ctx context.Context, codeToRun *compil
 		if r := recover(); r != nil {
 			err = fmt.Errorf("panic: %v", r)
 		}
+		if err != nil {
+			// A failed run leaves nothing behind that a later invocation
+			// could trip over: no operands (a Call on a full stack overflows
+			// at once), and no position in the middle of a statement (a Run
+			// that continues this code starts after it, with what is
+			// compiled next)
+			for vm.sp >= 0 {
+				vm.pop()
+			}
+			if !resetState {
+				vm.ip = codeToRun.InstructionCount()
+			}
+		}
 		vm.stop()
 	}()
+
+	lastRun := vm.lastRun
+	vm.lastRun = codeToRun
+	if lastRun == nil && !resetState {
+		// The first run of this VM: WithInstructionOffset may have set a
+		// start position
+		lastRun = codeToRun
+	}
 
 	// Reset VM state for new code execution if requested
 	if resetState && vm.startCount > 1 {
@@ -225,6 +247,11 @@ func (vm *VirtualMachine) runCodeInternal(ctx context.Context, codeToRun *compil
 	startIP := 0
 	if !resetState {
 		startIP = vm.ip
+		// The instruction pointer is that of whatever ran last: it continues
+		// this code only if this code is what ran last
+		if lastRun != codeToRun {
+			startIP = 0
+		}
 		// The previous run left its result (or, if it failed, its pending
 		// operands) on the stack. The continuation starts with an empty
 		// stack, otherwise every REPL input would use up one more slot.
